@@ -200,17 +200,19 @@ def size_case(ctx, size):
         return
     if lock != P(root) + op('TAPROOT') + b'\x00':
         ctx.violation({'clause': 'root = P + clamp(sha256(P || sha256(S))) * G'}, f'size {size}')
-    for name, lk in (('native', lock), ('non-native', nn)):
+    # item-size limits of the embedder: generous, and exactly the largest item of the witness (the committed script itself)
+    for name, lk, lim in [(nm, l_, lim_) for nm, l_ in (('native', lock), ('non-native', nn)) for lim_ in sorted({2048, max(size, 64), max(size, 64) + 1})]:
         rec = Recorder()
         try:
-            v = F.run_auth_scripts([w, lk], {}, {CID: rec}, stack_max_item_size=2048)
+            v = F.run_auth_scripts([w, lk], {}, {CID: rec}, stack_max_item_size=lim)
         except BaseException as e:
             v = e
         ctx.ran()
         ctx.trans(3)
         if v is not True or rec.log != want_log:
-            ctx.violation({'clause': 'script-spend witness made by the builder unlocks its lock', 'lock': name},
-                          f'committed script of {size} bytes: {v!r} {rec.log}')
+            ctx.violation({'clause': 'script-spend witness made by the builder unlocks its lock', 'lock': name,
+                           **({} if lim == 2048 else {'limit': 'item-size limit == script size' if lim == size else 'other item-size limit'})},
+                          f'committed script of {size} bytes, stack_max_item_size={lim}: {v!r} {rec.log}')
 
 
 # ---------------------------------------------------------------- (B) key path
